@@ -94,6 +94,64 @@ func MoreRows() []Row {
 			return Op[int, int](ro.OnErrorResumeNextWith[int]())
 		}, identity))
 	}
+	{
+		// variadic "...With" operators, built from argument slices that have spare capacity (an operator
+		// that appends to or shifts its argument slice in place then rewrites what an earlier application
+		// of the same operator value captured)
+		spareObs := func(os ...ro.Observable[int]) []ro.Observable[int] {
+			a := make([]ro.Observable[int], 0, len(os)+3)
+			return append(a, os...)
+		}
+		spareInts := func(vs ...int) []int {
+			a := make([]int, 0, len(vs)+3)
+			return append(a, vs...)
+		}
+		add(intRow("ConcatWith(Just(8),Just(9))[spare cap]", "ConcatWith", S|Blocking|Creates, func(e *Env) Op[int, int] {
+			return Op[int, int](ro.ConcatWith(spareObs(ro.Just(8), ro.Just(9))...))
+		}, func(in []h.Ev) []h.Ev {
+			vals, end := split(in)
+			if end != nil && end.K == h.C {
+				return join(append(vals, 8, 9), cEnd())
+			}
+			return join(vals, end)
+		}))
+		add(intRow("ConcatWith(Just(8))[spare cap]", "ConcatWith", S|Blocking|Creates, func(e *Env) Op[int, int] {
+			return Op[int, int](ro.ConcatWith(spareObs(ro.Just(8))...))
+		}, func(in []h.Ev) []h.Ev {
+			vals, end := split(in)
+			if end != nil && end.K == h.C {
+				return join(append(vals, 8), cEnd())
+			}
+			return join(vals, end)
+		}))
+		add(intRow("MergeWith(Empty,Empty)[spare cap]", "MergeWith", S|Creates, func(e *Env) Op[int, int] {
+			return Op[int, int](ro.MergeWith(spareObs(ro.Empty[int](), ro.Empty[int]())...))
+		}, identity))
+		add(intRow("StartWith(8,9)[spare cap]", "StartWith", S|Creates, func(e *Env) Op[int, int] {
+			return Op[int, int](ro.StartWith(spareInts(8, 9)...))
+		}, func(in []h.Ev) []h.Ev {
+			vals, end := split(in)
+			return join(append([]interface{}{8, 9}, vals...), end)
+		}))
+		add(intRow("EndWith(8,9)[spare cap]", "EndWith", S|Creates, func(e *Env) Op[int, int] {
+			return Op[int, int](ro.EndWith(spareInts(8, 9)...))
+		}, func(in []h.Ev) []h.Ev {
+			vals, end := split(in)
+			if end != nil && end.K == h.C {
+				return join(append(vals, 8, 9), end)
+			}
+			return join(vals, end)
+		}))
+		add(intRow("OnErrorResumeNextWith(Just(8),Just(9))[spare cap]", "OnErrorResumeNextWith", S|Blocking|Creates, func(e *Env) Op[int, int] {
+			return Op[int, int](ro.OnErrorResumeNextWith(spareObs(ro.Just(8), ro.Just(9))...))
+		}, func(in []h.Ev) []h.Ev {
+			vals, end := split(in)
+			if end == nil {
+				return join(vals, nil)
+			}
+			return join(append(vals, 8, 9), cEnd())
+		}))
+	}
 	for _, mr := range []uint64{1, 2} {
 		mr := mr
 		m, subs := resubModel(func(attempt int, end h.Ev) (bool, *h.Ev) {
